@@ -534,11 +534,44 @@ def indexed_stat_cases(draw):
             "axis": draw(st.one_of(st.none(), st.integers(0, 3))), "stat": draw(st.sampled_from(["minimum", "maximum", "mean", "sum", "median"]))}
 
 
+# --------------------------------------------------------------------------- statistics of a selection defined on a pixel-aligned dataset
+
+def fn_aligned_stat(spec, rec):
+    """compute_statistic on dataset B with a selection defined on dataset A whose pixel axes are linked one-to-one to B's in a
+    generated order (the slice selection takes a shortcut through SliceSubsetState.to_array here)."""
+    from .c04 import build_aligned
+    w = build_aligned(spec["world"])
+    b, exp_mask, kind = w["b"], w["expected_full"], w["kind"]
+    vals = np.asarray(b[b.id["v"]], dtype=float)
+    axes = [None] if kind == "slice" else [None] + list(range(vals.ndim)) + ([tuple(range(vals.ndim))] if vals.ndim > 1 else [])
+    for stat in spec["stats"]:
+        for axis in axes:
+            expected = oracle_stat(stat, vals, exp_mask & np.isfinite(vals), axis, 50)
+            try:
+                got = b.compute_statistic(stat, b.id["v"], subset_state=w["make"](), axis=axis, **({"percentile": 50} if stat == "percentile" else {}))
+            except Exception as e:  # noqa
+                if blame(e)[0] != "glue":
+                    raise
+                raise Mismatch("aligned-stat-raises/%s/%s" % (kind, type(e).__name__), repr(e)[:300])
+            if not close(got, expected):
+                raise Mismatch("aligned-stat-value/%s/%s" % (kind, "permuted" if w["perm"] != sorted(w["perm"]) else "same-order"),
+                               {"stat": stat, "axis": axis, "got": np.asarray(got).tolist(), "expected": np.asarray(expected).tolist(), "perm": w["perm"]})
+    rec.nt(bool(exp_mask.any() and not exp_mask.all()) and w["perm"] != sorted(w["perm"]))
+    rec.label("aligned:" + kind, "ndim:%d" % vals.ndim, "permuted" if w["perm"] != sorted(w["perm"]) else "same-order")
+
+
+@st.composite
+def aligned_stat_cases(draw):
+    from .c04 import aligned_cases
+    return {"world": draw(aligned_cases()), "stats": draw(st.lists(st.sampled_from(["sum", "mean", "minimum", "maximum", "median"]), min_size=1, max_size=2, unique=True))}
+
+
 def checks(tier):
-    n = {"quick": (8000, 3000, 1000, 600), "thorough": (320000, 120000, 40000, 40000)}.get(tier, (10, 10, 10, 10))
+    n = {"quick": (8000, 3000, 1000, 600, 1200), "thorough": (320000, 120000, 40000, 40000, 60000)}.get(tier, (10, 10, 10, 10, 10))
     return [
         Check("statistics", fn_stat, strategy=stat_cases(), examples=n[0]),
         Check("histograms", fn_hist, strategy=hist_cases(), examples=n[1]),
         Check("indexed_statistics", fn_indexed_stat, strategy=indexed_stat_cases(), examples=n[2]),
         Check("viewer_layer_products", fn_layer_products, strategy=product_cases(), examples=n[3]),
+        Check("aligned_statistics", fn_aligned_stat, strategy=aligned_stat_cases(), examples=n[4]),
     ]
